@@ -452,7 +452,10 @@ _re_float = re.compile(r'^\s*[+-]?(\d+\.?\d*|\.\d+)(E[+-]?\d+)?\s*$', re.I | re.
 def _float(v):
     if isinstance(v, str) and not _re_float.match(v):
         raise ValueError  # Python only literals (e.g., `inf`, `nan`, `1_0`).
-    return float(v)
+    res = float(v)
+    if isinstance(v, str) and res in (np.inf, -np.inf):
+        raise ValueError  # Beyond the range of a double (e.g., `1e999`).
+    return res
 
 
 def wrap_ufunc(
